@@ -781,6 +781,7 @@ class Ctx:
         self.atom_zc = {}        # (aid, lin) -> z3 expr
         self.atom_val = {}       # aid -> Decimal value of closed atoms
         self.sqrt_rad = {}       # aid -> radicand polynomial of sqrt atoms
+        self.sqrt_order = []     # sqrt atoms with symbolic radicand, in creation order
         self.mono_vars = {}      # mono -> z3 const (linear abstraction)
         self.inputs = {}         # name -> aid
         self.pc = []             # exact z3 path condition
@@ -825,6 +826,19 @@ class Ctx:
             sq = {((aid, 2),): Fr(1)}
             self._assert_z(z3.And(s >= 0, self.poly_z(sq, False) == self.poly_z(p, False)),
                            z3.And(s >= 0, self.poly_z(sq, True) == self.poly_z(p, True)), True)
+            # monotonicity lemmas against earlier roots (valid facts; they let the linear layer compare roots)
+            if p_const(p) is None:
+                for other in self.sqrt_order[-16:]:
+                    po = self.sqrt_rad[other]
+                    so = self.atom_zc[(other, False)]
+                    for lin in (False, True):
+                        a, b = self.poly_z(p, lin), self.poly_z(po, lin)
+                        lem = z3.And((s < so) == (a < b), (s == so) == (a == b))
+                        if lin:
+                            self.lin.add(lem)
+                        else:
+                            self.pc.append(lem)
+                self.sqrt_order.append(aid)
         elif kind == 'div':
             _, pa, pb = self.atoms[aid]
             q = z3.Real('div!%d' % aid)
